@@ -385,7 +385,7 @@ def Server.runSCIONServer : List Row := [
   (7, "authKey = hostHostKey.Key[:]"),  -- Drkey.listenerKey: .key hh.key
   (7, "if authMockKey != nil"),  -- Drkey.listenerKey: if cfg.mock
   (8, "authKey = authMockKey"),  -- Drkey.listenerKey: List.replicate 16 0 (row 24)
-  (7, "_, err = spao.ComputeAuthCMAC( spao.MACInput{ Key: authKey, Header: slayers.PacketAuthOption{EndToEndOption: authOpt}, ScionLayer: &scionLayer, PldType: slayers.L4UDP, Pld: buf[len(buf)-int(udpLayer.Length):]}, authBuf, authMAC)"),  -- ScionSrv.Pkt.mac: oracle, real spao MAC by harness c13 under the key of ScionSrv.keyOf (only correct udp.Length exercised)
+  (7, "_, err = spao.ComputeAuthCMAC( spao.MACInput{ Key: authKey, Header: slayers.PacketAuthOption{EndToEndOption: authOpt}, ScionLayer: &scionLayer, PldType: slayers.L4UDP, Pld: udpLayer.Contents[:len(udpLayer.Contents)+len(udpLayer.Payload)]}, authBuf, authMAC)"),  -- ClientFlow.srvWindows (Props/C13Win: bytes MAC'ed = UDP header ++ bytes decoded, repaired in a1d292c); ScionSrv.Pkt.mac: oracle, real spao MAC by harness c13 under the key of ScionSrv.keyOf, inconsistent udp.Length exercised by stream reframe
   (7, "if err != nil"),  -- ScionSrv.authCheck: match p.mac | none
   (8, "continue"),  -- ScionSrv.authCheck: fixed: .drop "mac-error" (old: panic explicit:mac, F4e)
   (7, "authenticated = subtle.ConstantTimeCompare(scion.PacketAuthOptMAC(authOpt), authMAC) != 0"),  -- ScionSrv.authCheck: d.drop metadataLen = m (ScionSrv.authMAC: bytes 12..28; harness c13 op auth.mac)
